@@ -5,7 +5,7 @@
 SRC=${1:-/tmp/seed}
 export GOPROXY=off
 unset GOFLAGS GOWORK
-for d in $SRC/C*/[ab]; do
+for d in $SRC/C*/[abcdh]; do
   id=$(basename $(dirname $d)); x=$(basename $d); name=$id-$x
   [ -f $d/patch.diff ] || continue
   wt=/tmp/wt-verify-$name
@@ -19,7 +19,15 @@ for d in $SRC/C*/[ab]; do
     ( cd $wt && go test -vet=off -count=1 ./... && (cd internal/app && go test -vet=off -count=1 ./...) ) >/dev/null 2>&1 || status="existing-tests-fail"
   fi
   demo_with="n/a"; demo_without="n/a"
-  if [ $status = ok ] && [ -f $d/demo_test.go ]; then
+  if [ $status = ok ] && [ $x = h ]; then
+    # harmless rewrite: the equivalence test must pass with and without the change
+    if [ -f $d/equiv_test.go ]; then
+      cp $d/equiv_test.go $wt/zz_seed_equiv_test.go
+      ( cd $wt && go test -vet=off -count=1 -timeout 300s -run TestSeedEquiv . ) >/dev/null 2>&1 && demo_with=pass || demo_with=fail
+      ( cd $wt && git checkout -q -- . && go test -vet=off -count=1 -timeout 300s -run TestSeedEquiv . ) >/dev/null 2>&1 && demo_without=pass || demo_without=fail
+      rm -f $wt/zz_seed_equiv_test.go
+    fi
+  elif [ $status = ok ] && [ -f $d/demo_test.go ]; then
     cp $d/demo_test.go $wt/zz_seed_demo_test.go
     ( cd $wt && go test -vet=off -count=1 -timeout 120s -run TestSeedDemo . ) >/dev/null 2>&1 && demo_with=pass || demo_with=fail
     ( cd $wt && git checkout -q -- . && go test -vet=off -count=1 -timeout 120s -run TestSeedDemo . ) >/dev/null 2>&1 && demo_without=pass || demo_without=fail
@@ -33,18 +41,22 @@ for d in $SRC/C*/[ab]; do
   fi
   git -C /repo worktree remove --force $wt
   echo "$name status=$status demo_with_change=$demo_with demo_without=$demo_without"
-  if [ $status = ok ] && [ $demo_with = fail ] && [ $demo_without = pass ]; then
+  keep=no
+  [ $status = ok ] && [ $x != h ] && [ $demo_with = fail ] && [ $demo_without = pass ] && keep=yes
+  [ $status = ok ] && [ $x = h ] && [ $demo_with != fail ] && [ $demo_without != fail ] && keep=yes
+  if [ $keep = yes ]; then
     mkdir -p /verif/seeded/$name
     cp $d/patch.diff /verif/seeded/$name/
-    for f in demo_test.go demo.js run.sh demo.sh notes.md extra_conc_test.go demo_wasm_test.go; do [ -f $d/$f ] && cp $d/$f /verif/seeded/$name/; done
+    for f in demo_test.go demo.js run.sh demo.sh notes.md extra_conc_test.go demo_wasm_test.go equiv_test.go; do [ -f $d/$f ] && cp $d/$f /verif/seeded/$name/; done
     python3 - "$name" "$id" "$d" <<'PY'
 import json,sys,os
 name,pid,d=sys.argv[1:4]
 notes=open(os.path.join(d,'notes.md')).read() if os.path.exists(os.path.join(d,'notes.md')) else ''
-json.dump({"id":name,"breaks_property":pid,"author":"independent sub-agent (given only the property text and a scratch worktree)",
+harmless = name.endswith('-h')
+json.dump({"id":name,("anchored_in_property" if harmless else "breaks_property"):pid,"kind":("harmless-rewrite" if harmless else "breaking"),"author":"independent sub-agent (given only the property text and a scratch worktree)",
   "needs_to_manifest":notes.strip()[:1500],
   "confirmed":{"applies_to":"/repo HEAD at archive time","builds":"go build ./... + internal/app + GOOS=js GOARCH=wasm wasm/main.go","existing_tests":"go test -vet=off -count=1 ./... (root and internal/app) pass with the change",
-               "demo":"fails with the change, passes without (tools/verify_seeded.sh)"}},
+               "demo":("equivalence test passes with and without the change" if harmless else "fails with the change, passes without (tools/verify_seeded.sh)")}},
   open('/verif/seeded/%s/meta.json'%name,'w'),indent=1)
 PY
   fi
